@@ -321,6 +321,30 @@ def socket_cuts(tier, seed, only=None):
                 finally:
                     port.close()
                     b.close()
+    # polling never blocks, whatever the number of bytes waiting (powers of two are where chunked readers go wrong) and even
+    # though the peer stays connected
+    for nbytes in (1, 3, 255, 256, 1023, 1024, 1025, 2048, 4096, 8192):
+        n += 1
+        seen.add(('burst', nbytes))
+        a, b = socket.socketpair()
+        port = SocketPort('peer', 1, conn=a)
+        try:
+            k3, rest = divmod(nbytes, 3)
+            burst = [mido.Message('note_on', channel=i % 16, note=i % 128, velocity=(i // 7) % 128) for i in range(k3)] + [mido.Message('tune_request')] * rest
+            b.sendall(b''.join(bytes(m.bin()) for m in burst))
+            got = []
+            t = threading.Thread(target=lambda: got.extend(port.iter_pending()), daemon=True)
+            t.start()
+            t.join(5)
+            if t.is_alive():
+                fails.append(dict(clause='polling a socket port does not block while the peer stays connected', inputs=dict(bytes_waiting=nbytes), detail='iter_pending() still running after 5 s'))
+                b.close()
+                t.join(5)
+            elif [str(x) for x in got] != [str(x) for x in burst]:
+                fails.append(dict(clause='exactly the completely arrived messages, then a clean end', inputs=dict(bytes_waiting=nbytes), detail='%d of %d messages' % (len(got), len(burst))))
+        finally:
+            port.close()
+            b.close()
     # closing a socket port is seen by its peer as a disconnect
     for _ in range(3):
         n += 1
